@@ -1,5 +1,7 @@
 """Single source for MANIFEST.json (tools/mkmanifest.py)."""
 ENGINES = [
+    {"name": "product-keys", "path": "vf/props/c08.py", "serves_properties": ["C08"],
+     "kind_free_text": "full product over the 29-key fixture pool x serialisation x password x entry point; sign/verify product incl. exhaustive single-bit flips; all (len r, msb r, len s, msb s) ECDSA shape classes; independent references vf/ref/ecdsa.py, rsa.py, der.py"},
     {"name": "lattice+sequences-sb2", "path": "vf/props/c04.py", "serves_properties": ["C04"],
      "kind_free_text": "all command sequences up to a length bound over a boundary-value alphabet + all header/option configurations with <= k departures, built with the real BootImageV20/V21 and decoded by an independent ROM model (vf/ref/rom_sb2.py, certblock_v1.py); region-wise bit-flip sweep"},
     {"name": "sweep-crypto", "path": "vf/props/c09.py", "serves_properties": ["C09"],
@@ -18,6 +20,12 @@ ENGINES = [
 FIX_COMMITS = ["e173e89", "69c9427", "3f819f3", "2ac9b91", "83ab516", "2982182", "b4341d3", "f68c828", "1e56e39", "8e8a574", "2622fd6", "9334850", "fd62f71", "1ea4c23", "c7c34d4", "dd26e59", "6b2a920", "698b0bb", "7a9bdd4", "d847120"]
 NOT_APPLICABLE = {}
 CHECKS = {
+    "C08": {
+        "engine": "product-keys", "level": "exploration", "design_ref": "DESIGN.md §9",
+        "technique": "bounded exhaustive enumeration: full product key pool x encoding x password x entry point, sign/verify parameter product with all single-bit flips of short messages and of ECC signatures, and all 30473 (len r, msb r, len s, msb s) shape classes per curve, executed on the real classes and CLIs and compared with independent pure-Python ECDSA/RSA/DER references",
+        "text": "Every pool key (RSA-2048/3072/4096, P-256/384/521 incl. leading-zero coordinates) is exported and re-parsed through every supported serialisation, password and entry point and compared with the fixture numbers; every supported signing parameter set is verified by SPSDK and by own RFC 8017 / ECDSA implementations, with exhaustive single-bit corruption of message and signature; raw<->DER ECDSA conversion is run over all shape classes of (r, s).",
+        "note": "Trusted: vf/ref/ecdsa.py, rsa.py, der.py (self-tested on RFC 6979 and OpenSSL-made vectors), the 29-key fixture pool; SM2/PQC back ends are not installed; a verify call that raises on an invalid signature counts as refusal.",
+    },
     "C04": {
         "engine": "lattice+sequences-sb2", "level": "exploration", "design_ref": "DESIGN.md §5",
         "technique": "bounded exhaustive enumeration: all command sequences of length <= 2 (3-4 thorough) over a 58-symbol boundary alphabet, all section pairs, all 16-dimension header configurations with <= 1-2 departures, HMAC-table x block-count product; every built file decoded by an independent ROM model; single-bit tamper sweep per region",
